@@ -59,6 +59,8 @@ SUPPORTED = {
     "redshift": _tmpl("CREATE TABLE rs{i} (a int ENCODE zstd, b varchar(9)) DISTSTYLE KEY DISTKEY (a);"),
     "postgres": _tmpl("CREATE TABLE pg{i} (a int, b text) INHERITS (s.parent);"),
     "set": _tmpl("SET search_path = public;"),
+    # a literal quoted one way that holds one quote character of the other kind (an odd number of ' resp. " before whatever follows on the line)
+    "cross_quoted": _tmpl("CREATE TABLE cq{i} (\n  a int,\n  b varchar(20) DEFAULT \"o'clock\",\n  c varchar(20) DEFAULT 'say \"hi',\n  d int\n);"),
     "alter_group": _tmpl("CREATE TABLE ag{i} (a int, b int, c int);",
                          "ALTER TABLE ag{i} ADD CONSTRAINT fk{i} FOREIGN KEY (a) REFERENCES p (k);",
                          "CREATE INDEX ix{i} ON ag{i} (b DESC);",
